@@ -19,6 +19,21 @@ from simprocesd.model.sensors.part_sensor import OutputPartSensor
 from simprocesd.model.cms.cms import Cms
 
 HARNESS_ID = -7          # asset id of injected operations: matches no asset
+
+# Observation of Asset.initialize (C20: "initialised exactly once"): a logging wrapper installed from here around the
+# base-class method; behaviour unchanged.  The log goes to the hub of the world that is currently entered.
+_CURRENT_HUB = [None]
+_orig_asset_initialize = Asset.initialize
+
+
+def _logged_initialize(self, env):
+    hub = _CURRENT_HUB[0]
+    if hub is not None:
+        hub.tlog.append(('initialize', self.name, type(self).__name__, self.id))
+    return _orig_asset_initialize(self, env)
+
+
+Asset.initialize = _logged_initialize
 INF = float('inf')
 
 
@@ -256,7 +271,7 @@ class AutoRepair:
         if is_failure:
             mt = [a for a in self.devs.values() if isinstance(a, Maintainer)][0]
             r = mt.create_work_order(dev, self.tag)
-            self.hub.tlog.append(('wo_request', dev.name, self.tag, bool(r)))
+            self.hub.tlog.append(('wo_request', dev.name, self.tag, bool(r), mt.name))
 
 
 class CycleByOrdinal:
@@ -420,11 +435,13 @@ class LineWorld:
         Asset._id_counter = self.id_counter
         System._instance = self.system
         self._gsaved = globalstate.enter(self.gvals)
+        _CURRENT_HUB[0] = self.hub
 
     def _leave(self):
         if self.mode == 'e2':
             self.id_counter = Asset._id_counter
             return
+        _CURRENT_HUB[0] = None
         self.id_counter = Asset._id_counter
         Asset._id_counter, System._instance = self._saved
         self._saved = None
@@ -444,65 +461,9 @@ class LineWorld:
         self.dev = {}
         self.groups = {}
         self.maintainer = None
-        nsrc = 0
+        self.nsrc = 0
         for d in spec['devices']:
-            k = d['kind']
-            name = d['name']
-            up = [self.dev[u] for u in d.get('up', [])]
-            if k == 'source':
-                nsrc += 1
-                gen = HPartGen(name, 1000 * nsrc, **d.get('gen', {}))
-                b = d.get('budget')
-                o = Source(name, gen, d.get('cycle', 0), INF if b is None else b)
-            elif k == 'handler':
-                o = PartHandler(name, up, d.get('cycle', 0))
-            elif k == 'processor':
-                o = HProcessor(name, up, d.get('cycle', 0), d.get('value', 0),
-                               d.get('resources'), wo={t: tuple(v) for t, v in d.get('wo', {}).items()})
-                o.hub = self.hub
-            elif k == 'buffer':
-                o = Buffer(name, up, d.get('delay', 0), d.get('capacity'))
-            elif k == 'gate':
-                o = DecisionGate(name, up, DECIDERS[d.get('decider', 'all')])
-            elif k == 'flow':
-                o = PartFlowController(name, up)
-            elif k == 'batcher':
-                o = PartBatcher(name, up, 0, d.get('size'))
-            elif k == 'sink':
-                o = Sink(name, up, d.get('cycle', 0), d.get('collect', True))
-            elif k == 'group':
-                g = Group(name, [self.dev[m] for m in d['members']])
-                self.groups[name] = g
-                continue
-            elif k == 'path':
-                o = self.groups[d['group']].get_new_group_path(name, up)
-            elif k == 'maintainer':
-                c = d.get('capacity')
-                o = Maintainer(name, INF if c is None else c, d.get('value', 0))
-                self.maintainer = o
-            elif k in ('obj', 'scheduler', 'psensor', 'osensor', 'cms'):
-                o = self.make_aux(d)
-            else:
-                raise HarnessError(f'unknown device kind {k}')
-            self.dev[name] = o
-            if d.get('blocked'):
-                o.block_input = True
-            if isinstance(o, PartHandler):
-                if d.get('cycles') or d.get('offsets'):
-                    o.add_receive_part_callback(CycleByOrdinal(d.get('cycles'), d.get('offsets')))
-                o.add_receive_part_callback(self.hub.on_receive)
-            if isinstance(o, PartProcessor):
-                if d.get('dv') or d.get('dq'):
-                    o.add_finish_processing_callback(AddValue(d.get('dv', 0), d.get('dq', 0)))
-                o.add_finish_processing_callback(self.hub.on_finish)
-                o.add_shutdown_callback(self.hub.on_shutdown)
-                o.add_restored_callback(self.hub.on_restored)
-                for n in range(spec.get('probes', 0)):
-                    p = Probe3(self.hub, n)
-                    o.add_shutdown_callback(p.shutdown)
-                    o.add_restored_callback(p.restored)
-                if d.get('auto_repair') is not None:
-                    o.add_shutdown_callback(AutoRepair(self.dev, self.hub, d['auto_repair']))
+            self.make_device(d)
         self.n_static = Asset._id_counter
         # observers around every give_part
         for a in self.system._assets:
@@ -510,6 +471,68 @@ class LineWorld:
                 a.give_part = GiveWrap(self.hub, a)
         self.id_counter = Asset._id_counter
         Asset._id_counter, System._instance = saved
+
+    def make_device(self, d):
+        '''Creates ONE real device from its spec entry (at build time, or while running: C20).'''
+        spec = self.spec
+        k = d['kind']
+        name = d['name']
+        up = [self.dev[u] for u in d.get('up', [])]
+        if k == 'source':
+            self.nsrc += 1
+            gen = HPartGen(name, 1000 * self.nsrc, **d.get('gen', {}))
+            b = d.get('budget')
+            o = Source(name, gen, d.get('cycle', 0), INF if b is None else b)
+        elif k == 'handler':
+            o = PartHandler(name, up, d.get('cycle', 0))
+        elif k == 'processor':
+            o = HProcessor(name, up, d.get('cycle', 0), d.get('value', 0),
+                           d.get('resources'), wo={t: tuple(v) for t, v in d.get('wo', {}).items()})
+            o.hub = self.hub
+        elif k == 'buffer':
+            o = Buffer(name, up, d.get('delay', 0), d.get('capacity'))
+        elif k == 'gate':
+            o = DecisionGate(name, up, DECIDERS[d.get('decider', 'all')])
+        elif k == 'flow':
+            o = PartFlowController(name, up)
+        elif k == 'batcher':
+            o = PartBatcher(name, up, 0, d.get('size'))
+        elif k == 'sink':
+            o = Sink(name, up, d.get('cycle', 0), d.get('collect', True))
+        elif k == 'group':
+            g = Group(name, [self.dev[m] for m in d['members']])
+            self.groups[name] = g
+            return g
+        elif k == 'path':
+            o = self.groups[d['group']].get_new_group_path(name, up)
+        elif k == 'maintainer':
+            c = d.get('capacity')
+            o = Maintainer(name, INF if c is None else c, d.get('value', 0))
+            self.maintainer = o
+        elif k in ('obj', 'scheduler', 'psensor', 'osensor', 'cms'):
+            o = self.make_aux(d)
+        else:
+            raise HarnessError(f'unknown device kind {k}')
+        self.dev[name] = o
+        if d.get('blocked'):
+            o.block_input = True
+        if isinstance(o, PartHandler):
+            if d.get('cycles') or d.get('offsets'):
+                o.add_receive_part_callback(CycleByOrdinal(d.get('cycles'), d.get('offsets')))
+            o.add_receive_part_callback(self.hub.on_receive)
+        if isinstance(o, PartProcessor):
+            if d.get('dv') or d.get('dq'):
+                o.add_finish_processing_callback(AddValue(d.get('dv', 0), d.get('dq', 0)))
+            o.add_finish_processing_callback(self.hub.on_finish)
+            o.add_shutdown_callback(self.hub.on_shutdown)
+            o.add_restored_callback(self.hub.on_restored)
+            for n in range(self.spec.get('probes', 0)):
+                p = Probe3(self.hub, n)
+                o.add_shutdown_callback(p.shutdown)
+                o.add_restored_callback(p.restored)
+            if d.get('auto_repair') is not None:
+                o.add_shutdown_callback(AutoRepair(self.dev, self.hub, d['auto_repair']))
+        return o
 
     def make_aux(self, d):
         '''Schedulers, sensors, CMS and plain objects (also used for assets created while running, C20).'''
@@ -585,6 +608,23 @@ class LineWorld:
                 return e
         return None
 
+    def op_enabled(self, op):
+        '''Operations on assets that do not exist (yet) are not offered; an asset is created at most once.'''
+        k = op[0]
+        if k == 'create':
+            for i in op[1:]:
+                d = self.spec['late'][i]
+                if d['name'] in self.dev:
+                    return False
+            return True
+        if k in ('reg', 'unreg'):
+            return op[1] in self.dev and op[2] in self.dev
+        if k == 'addres':
+            return True
+        if k == 'upstream':
+            return op[1] in self.dev and all(u in self.dev for u in op[2])
+        return op[1] in self.dev
+
     def _op_labels(self, positions, kind='op'):
         labels = []
         first = self.spec.get('first_op')
@@ -594,6 +634,8 @@ class LineWorld:
                 continue       # this job covers the executions whose FIRST injected operation is `first`
             lim = self.op_limits[i]
             if lim is not None and self.used[i] >= lim:
+                continue
+            if not self.op_enabled(self.ops[i]):
                 continue
             for p in positions:
                 labels.append((kind, i, p) if p is not None else (kind, i))
@@ -767,7 +809,7 @@ class LineWorld:
         elif k == 'wo':
             tgt = self.dev[op[1]]
             r = self.maintainer.create_work_order(tgt, op[2])
-            hub.tlog.append(('wo_request', tgt.name, op[2], bool(r)))
+            hub.tlog.append(('wo_request', tgt.name, op[2], bool(r), self.maintainer.name))
         elif k == 'block':
             self.dev[op[1]].block_input = bool(op[2])
         elif k == 'addres':
@@ -790,6 +832,18 @@ class LineWorld:
         elif k == 'unreg':
             r = self.dev[op[1]].unregister_object(self.dev[op[2]])
             hub.tlog.append(('unreg', op[1], op[2], bool(r)))
+        elif k == 'create':
+            # assets created while the simulation is running / between two runs (C20)
+            for i in op[1:]:
+                d = self.spec['late'][i]
+                o = self.make_device(d)
+                if isinstance(o, PartFlowController):
+                    for a in self.system._assets:
+                        if isinstance(a, PartFlowController) and not isinstance(a.__dict__.get('give_part'), GiveWrap):
+                            a.give_part = GiveWrap(hub, a)
+                hub.tlog.append(('created', d['name'], d['kind'], env.now))
+                for m in self.monitors:
+                    m.created(self, d, env.now)
         elif k == 'bump':
             o = self.dev[op[1]]
             o.x[0] += 1           # in place: a sensor that stored a reference instead of a copy is exposed
@@ -818,6 +872,10 @@ class Monitor:
         pass
 
     def final(self, w):
+        pass
+
+    def created(self, w, d, t0):
+        '''An asset described by spec entry d was created at time t0 while running.'''
         pass
 
 
@@ -900,6 +958,7 @@ def run_e2(spec, monitor_factory, path, prefix_ok=False, trace=False):
     Asset._id_counter = w.id_counter
     System._instance = w.system
     gs = globalstate.enter(w.gvals)
+    _CURRENT_HUB[0] = w.hub
     w.env.step = shim
     home = old_home = None
     if trace:
@@ -956,6 +1015,7 @@ def run_e2(spec, monitor_factory, path, prefix_ok=False, trace=False):
         w.id_counter = Asset._id_counter
         Asset._id_counter, System._instance = saved
         globalstate.leave(w.gvals, gs)
+        _CURRENT_HUB[0] = None
         if trace:
             import os
             import shutil
